@@ -1,6 +1,6 @@
 """C03: signature hashes follow the Elements legacy / segwit-v0 / taproot algorithms (SigMsg.tla)."""
 import os
-from lib.common import tlc, tlc_must_pass, vh
+from lib.common import tlc, tlc_must_pass, vh, cached_emission
 
 LEVEL = "model_checking"
 
@@ -8,8 +8,9 @@ LEVEL = "model_checking"
 def gen(ck):
     w = ck.work
     cases, sens = os.path.join(w, "sig.ndjson"), os.path.join(w, "sens.ndjson")
-    r = tlc_must_pass(tlc("Gen_SigMsg", "Gen_SigMsg.cfg", w, env={"GEN_TIER": ck.tier, "OUT": cases, "OUT_SENS": sens}, workers=1,
-                          timeout=3000, xmx="24g"), "C03 gen")
+    # shared with C13; depends on the specification and the tier only
+    r = cached_emission(ck, "sigmsg", "Gen_SigMsg", "Gen_SigMsg.cfg", {"GEN_TIER": ck.tier}, {"OUT": cases, "OUT_SENS": sens},
+                        ["SigMsg.tla", "SigShapes.tla"], what="C03 gen")
     ck.add_tlc(r, "message construction for every (tx shape, index, hash type, path, annex, prevouts form); constant-level AcpIsolated / "
                   "NoneHasNoOutputs / monotone output commitment; per-field Touch differencing")
     return cases, sens
